@@ -108,6 +108,16 @@ CLAIMED = {
             'pooled RDMs of both pooling routines (plain and whitened) and the regression fit equal their entry-deleted counterparts; '
             'RDMs.mean is proved the per-pair NaN-aware mean for no / per-entry / per-RDM weights, NaN only where no RDM has a value.',
             'masks on 4 conditions (4|41 masks); rescale outside (data-dependent iteration count); positive norms assumed'),
+    'C08': ('DESIGN.md 4/C08',
+            'fit_regress (cosine, corr, cosine_cov, corr_cov; sigma_k none or a concrete variance vector; pattern index selections with '
+            'repeats): the returned weights are proved to satisfy the normal equations of the correctly normalised (and whitened) least-squares '
+            'problem restricted to the selected conditions with their bootstrap multiplicity, for all real basis and training RDMs; normalised '
+            'fits proved proportional with unit norm (cosine); fit_select proved to return an index whose average similarity is >= every '
+            'other candidate under the path condition; predict vs predict_rdm agreement, linearity in theta, descriptor carry-over and '
+            'dictionary round trip for all four model classes as identities.',
+            'fit_optimize / fit_optimize_positive / fit_interpolate (SciPy optimisers) are not encodable -> default fitters of ModelWeighted and '
+            'ModelInterpolate are outside; fit_regress_nn (active-set loop) did not terminate within the budget symbolically and is outside; '
+            'normal equations => optimality is the usual projection argument (Cauchy-Schwarz lemma solver-checked in C03/C07); 2-3 basis RDMs, 3-4|5 conditions'),
 }
 
 NA = {
